@@ -46,6 +46,8 @@ PROBES = {
     "tabs": "int",
     "diff-stat-align-width": "int",
     "line-numbers-left-format": "string",   # printed only when line-numbers is on
+    "minus-style": "style",         # rewritten by the side-by-side rule when it is clap's default
+    "minus-emph-style": "style",
     "width": "int",                 # Option<String> getter
     "pager": "string",              # Option<String> getter
     "max-line-distance": "float",   # f64 getter
@@ -379,6 +381,36 @@ def o_value(cfg, o, order, inert, defaults, impl):
     return "default", defaults.get(o)
 
 
+SBS_DEFAULT = {"minus-style": "syntax auto", "minus-emph-style": "syntax auto"}   # built-in default under side-by-side
+
+
+def o_raw(cfg, o, order, inert):
+    """(source kind, raw text) of option o by the documented precedence, no rendering."""
+    for co, cv in cfg["cli"]:
+        if co == o:
+            return "cli", ("true" if cv is None else cv)
+    git = o_git(cfg)
+    if o in git["main"]:
+        return "main", git["main"][o]
+    for f in order:
+        sec = git["sections"].get(f, {})
+        if o in sec:
+            return "custom", sec[o]
+    return "default", None
+
+
+def o_final(cfg, o, order, inert, defaults, impl):
+    """Documented precedence plus the two documented built-in rules of set_options: under the
+    side-by-side feature the *built-in default* of minus-style / minus-emph-style is `syntax auto`
+    (any configured value stands), and color-only forces side-by-side off."""
+    kind, val = o_value(cfg, o, order, inert, defaults, impl)
+    if kind == "default" and o in SBS_DEFAULT and "side-by-side" in order:
+        return "default-sbs", impl.render(o, SBS_DEFAULT[o])
+    if o == "side-by-side" and o_raw(cfg, "color-only", order, inert)[1] == "true":
+        return "color-only-reset", "false"
+    return kind, val
+
+
 def oracle_variants(cfg, lenient_sections):
     """Tie-break choices the documentation leaves open (and, if `lenient_sections`, the order of
     several builtin flags inside one section — documented only by example)."""
@@ -414,7 +446,7 @@ def oracle_expected(cfg, defaults, impl, lenient_sections=False, primary_only=Fa
         vals = {}
         kinds = {}
         for o in cfg["probes"]:
-            kinds[o], vals[o] = o_value(cfg, o, order, inert, defaults, impl)
+            kinds[o], vals[o] = o_final(cfg, o, order, inert, defaults, impl)
         res.append((vals, kinds, order))
         if primary_only:
             break
@@ -801,14 +833,73 @@ def family_both(thorough):
     return out
 
 
+def enable_sbs(c, how):
+    if how == "cli":
+        c["cli"].append(["side-by-side", None])
+    elif how == "main-flag":
+        c["config"]["main"].append(["side-by-side", "true"])
+    elif how == "features-cli":
+        c["features"] = ((c["features"] or "") + " side-by-side").strip()
+    elif how == "features-main":
+        c["config"]["main"].append(["features", "side-by-side"])
+    elif how == "custom-flag":
+        add_section(c, "s", [("side-by-side", "true")])
+        c["features"] = ((c["features"] or "") + " s").strip()
+
+
+def family_post(thorough):
+    """The statements of set_options around the macro: side-by-side x minus-style / minus-emph-style
+    starting with `normal ` (or not) set nowhere / in [delta] / in GIT_CONFIG_PARAMETERS / in a custom
+    feature / on the command line; color-only x side-by-side."""
+    out = []
+    for sbs in ("none", "cli", "main-flag", "features-cli", "features-main", "custom-flag"):
+        for opt in ("minus-style", "minus-emph-style"):
+            placements = [("nowhere", None)]
+            for value in ('normal "#3f0001"', "normal red"):
+                placements += [(w, value) for w in ("main", "params", "custom", "cli")]
+            placements += [("main", "red bold"), ("custom", "syntax red")]
+            for where, value in placements:
+                c = base_cfg()
+                c["probes"] = ["minus-style", "minus-emph-style", "side-by-side"]
+                if where == "main":
+                    c["config"]["main"].append([opt, value])
+                elif where == "params":
+                    c["params"].append([opt, value])
+                elif where == "custom":
+                    add_section(c, "b", [(opt, value)])
+                    c["features"] = "b"
+                elif where == "cli":
+                    c["cli"].append([opt, value])
+                enable_sbs(c, sbs)
+                c["family"] = f"post/sbs-{sbs}/{opt}/{where}/{(value or '-').split()[0]}"
+                out.append(c)
+    for co in ("cli", "main", "custom-key", "feature-name"):
+        for sbs in ("cli", "main-flag", "features-cli"):
+            c = base_cfg()
+            c["probes"] = ["side-by-side", "keep-plus-minus-markers", "minus-style"]
+            enable_sbs(c, sbs)
+            if co == "cli":
+                c["cli"].append(["color-only", None])
+            elif co == "main":
+                c["config"]["main"].append(["color-only", "true"])
+            elif co == "custom-key":
+                add_section(c, "k", [("color-only", "true")])
+                c["features"] = ((c["features"] or "") + " k").strip()
+            else:
+                c["features"] = ((c["features"] or "") + " color-only").strip()
+            c["family"] = f"post/color-only-{co}/sbs-{sbs}"
+            out.append(c)
+    return out
+
+
 def random_cfg(rng):
     """thorough tier: a random configuration over the same vocabulary (up to 4 custom nodes)."""
     names = ["a", "b", "c", "d"]
     builtins = ["navigate", "raw", "line-numbers", "side-by-side", "diff-so-fancy", "diff-highlight", "hyperlinks"]
     probes = ["file-modified-label", "file-style", "keep-plus-minus-markers", "tabs", "diff-stat-align-width",
               "file-added-label", "navigate", "line-numbers", "side-by-side", "hyperlinks", "commit-style",
-              "width", "pager", "max-line-distance"]
-    texts = {"string": ["T1", "T2", "T3", "T4"], "style": ["red", "green", "blue", "yellow", "magenta"],
+              "width", "pager", "max-line-distance", "minus-style"]
+    texts = {"string": ["T1", "T2", "T3", "T4"], "style": ["red", "green", "blue", "yellow", "normal magenta"],
              "bool": ["true", "false"], "int": ["31", "32", "33", "35"], "float": ["0.1", "0.2", "0.4", "0.9"]}
     c = base_cfg()
     c["family"] = "random"
@@ -895,6 +986,8 @@ def needed_renderings(cfgs):
                 texts.setdefault(k, set()).add(v)
         other = [v for _, v in gc["other"]]
         for o in c["probes"]:
+            if o in SBS_DEFAULT:
+                pairs.add((o, SBS_DEFAULT[o]))
             for t in texts.get(o, ()):
                 pairs.add((o, t))
             for b, tbl in O_BUILTIN.items():
@@ -1084,12 +1177,14 @@ def run(ctx, rep):
                 "--features / [delta] features / GIT_CONFIG_PARAMETERS delta.features; (6) the same key in the [delta] section of the file and in "
                 "GIT_CONFIG_PARAMETERS with different values, for two options of every getter type (String, Option<String>, "
                 "bool, usize, f64; one for f64) alone / under a command-line value / above a feature / under --no-gitconfig, "
-                "the `features` key and feature flags in both places. Every configuration "
+                "the `features` key and feature flags in both places; (7) side-by-side (6 ways of enabling it) x minus-style / "
+                "minus-emph-style starting with `normal ` set nowhere / [delta] / GIT_CONFIG_PARAMETERS / custom feature / "
+                "command line, and color-only x side-by-side (the statements of set_options around the macro). Every configuration "
                 "is run in >= 3 fresh processes. non-trivial = at least two sources set a probe, or features are "
                 "enabled, or --no-gitconfig; distinct by configuration hash")
     thorough = not ctx.quick()
     cfgs = (family_sources(thorough) + family_graphs(thorough) + family_flags(thorough) + family_nogitconfig(thorough)
-            + family_env(thorough) + family_both(thorough))
+            + family_env(thorough) + family_both(thorough) + family_post(thorough))
     if thorough:
         cfgs += [random_cfg(ctx.rng) for _ in range(6000)]
     rep.exhaustive = dict(lattice_configs=len(cfgs), runs_per_config=ctx.n(3, 6))
